@@ -14,6 +14,7 @@ VERIF = os.path.dirname(os.path.dirname(os.path.abspath(__file__)))
 sys.path.insert(0, os.path.join(VERIF, 'tools'))
 import registry  # noqa: E402
 import gen_driver_main  # noqa: E402
+import gen_spec  # noqa: E402
 
 REPO = os.environ.get('N2K_REPO', '/repo')
 SRC = os.path.join(REPO, 'src')
@@ -131,7 +132,7 @@ def sha(*parts):
 def headers_digest():
     h = hashlib.sha256()
     for p in sorted(glob.glob(os.path.join(SRC, '*.h')) + glob.glob(os.path.join(SRC, '*.tpp')) +
-                    glob.glob(os.path.join(VERIF, 'harness', '*.h'))):
+                    glob.glob(os.path.join(VERIF, 'harness', '*.h')) + glob.glob(os.path.join(BUILD, 'gen', '*.h'))):
         h.update(p.encode()); h.update(open(p, 'rb').read())
     return h.hexdigest()
 
@@ -145,7 +146,7 @@ def compile_obj(src, flags, hdig):
     if os.path.exists(obj):
         return obj, None
     tmp = obj + '.%d.tmp' % os.getpid()
-    r = run(['g++'] + flags + ['-I' + SRC, '-I' + os.path.join(VERIF, 'harness'), '-c', src, '-o', tmp])
+    r = run(['g++'] + flags + ['-I' + SRC, '-I' + os.path.join(VERIF, 'harness'), '-I' + os.path.join(BUILD, 'gen'), '-c', src, '-o', tmp])
     if r.returncode != 0:
         return None, r.stdout
     os.replace(tmp, obj)
@@ -155,6 +156,7 @@ def compile_obj(src, flags, hdig):
 def build_harness(pid, spec, variant):
     """variant: '' | 't32' | 't64' -> path of binary or (None, error text)"""
     flags = CXXFLAGS + ['-D%s=1' % GUARD] + (T32 if variant == 't32' else []) + spec.get('cxxflags', [])
+    gen_spec.run()
     hdig = headers_digest()
     srcs = [os.path.join(VERIF, 'harness', spec['harness'])] + [os.path.join(SRC, s) for s in spec.get('repo_srcs', [])]
     from concurrent.futures import ThreadPoolExecutor
@@ -266,6 +268,12 @@ def one_pass(pid, spec, variant, binp, seed, tier, findings, res, replay=None):
         if len(parts) < 3 or parts[0] != 'FAIL':
             continue
         key, ln = parts[1], int(parts[2])
+        if key.startswith('harness:'):
+            res.setdefault('harness_errors', []).append(l)
+            continue
+        if not any(key.startswith(pre) for pre in spec.get('oracle_prefixes', [pid + ':'])):
+            res['counters']['oracle_failures_of_other_properties'] = res['counters'].get('oracle_failures_of_other_properties', 0) + 1
+            continue
         ent = {'key': key, 'line': ln, 'text': parts[3] if len(parts) > 3 else '',
                'case': case_of(ops, ln - 1, cs) if 0 < ln <= len(ops) else [], 'variant': variant}
         if key in findings and findings[key].get('status') == 'open':
@@ -431,6 +439,8 @@ def main():
                 break
         ev_extra['escalated_search_passes'] = k + 1
 
+    if res.get('harness_errors'):
+        problems.append('harness self-check failed: ' + '; '.join(res['harness_errors'][:3]))
     # ---- 6. decide
     for key, ent in sorted(res['known'].items()):
         log('KNOWN-FINDING: property=%s %s -- %s' % (pid, key, findings[key].get('what', ent['text'])))
